@@ -533,6 +533,8 @@ def apply_ux(desc, u, world):
     raise KeyError(m)
 
 
+ZERO_COUNT_GRIDS = []
+
 UX_OPS = ("ux_isel", "ux_subset", "integrate", "gradient", "difference", "topo", "remap", "get_dual")
 # the public ways of copying, in the order of `UxdaAlgebra.CopyApi` (the Lean model says which are deep: `C10.copydeep`)
 COPY_APIS = ["copy_default", "copy_deep", "copy_shallow", "copy_data", "copy_deep_data", "copy_shallow_data", "copy.copy",
@@ -1145,6 +1147,8 @@ def candidates(rng, t, state, world_counts, closed, derived, heap_n):
     """operation descriptors applicable to the twin `t` (shape-wise); weights by repetition"""
     dims = [str(x) for x in t.dims]
     sizes = dict(zip(dims, t.shape))
+    if any(n == 0 for n in t.shape):
+        return []        # an empty array: nothing left to operate on (the program ends here)
     other = [x for x in dims if x not in GRID_DIMS]
     gdims = [x for x in dims if x in GRID_DIMS]
     free = [x for x in OTHER[:9] if x not in dims and x not in t.coords]
@@ -1213,7 +1217,9 @@ def candidates(rng, t, state, world_counts, closed, derived, heap_n):
         out += [dict(m="expand_dims", dim=free[0], last=True), dict(m="expand_dims", dim=free[0], last=rng.random() < 0.5)]
     out += [dict(m="copy", how=h) for h in COPY_APIS]
     # ---- uxarray's own operations (only where the model says they are defined: one grid dimension, last)
-    if state["isUx"] and state["grid"] >= 0 and len(gdims) == 1:
+    if state["isUx"] and state["grid"] >= 0 and len(gdims) == 1 and min(world_counts[state["grid"]]) < 1:
+        ZERO_COUNT_GRIDS.append(tuple(world_counts[state["grid"]]))   # e.g. the dual of a mesh without interior nodes
+    elif state["isUx"] and state["grid"] >= 0 and len(gdims) == 1:
         g = state["grid"]
         cnt = world_counts[g]
         gcoord = any(set(map(str, v.dims)) & set(GRID_DIMS) for v in t.coords.values())
@@ -1228,6 +1234,9 @@ def candidates(rng, t, state, world_counts, closed, derived, heap_n):
             for _ in range(reps):
                 dim = rng.choice(["n_face", "n_face", "n_node", "n_edge"])
                 n = cnt[GRID_DIMS[dim]]
+                if n < 1:
+                    ZERO_COUNT_GRIDS.append(tuple(cnt))   # a grid without elements of some kind: nothing to select
+                    continue
                 r0 = rng.random()
                 if r0 < 0.15:
                     idx, arr = rng.randrange(n), False
@@ -1755,6 +1764,8 @@ def run(ctx):
                 ctx.notes.append(f"shared warm grids gained variables during the round (replays may see a colder grid): {grew}")
                 ctx.hit("warm-state-not-a-fixed-point")
         sites_exercised(env)
+        if ZERO_COUNT_GRIDS:
+            ctx.extra["grids_with_a_zero_element_count_met"] = sorted(set(ZERO_COUNT_GRIDS))[:10]
         # ---- the observed table vs the table the as-is theorems are about
         asis = common.Tok(ctx.driver.ask("C10.asis")).ints()
         obs = {k: env.table.get(k) for k in KINDS}
